@@ -319,24 +319,30 @@ func (o vfC15Op) String() string {
 }
 
 // vfC15Menus: collection sets databases may ask for; every pair of entries of a menu that shares a
-// collection is an ownership conflict the registry has to arbitrate. "" is the default collection.
-var vfC15MenuQuick = [][]string{{"c1"}, {"c2"}, {"c1", "c2"}}
-var vfC15MenuFull = [][]string{{"c1"}, {"c2"}, {"c1", "c2"}, {"c3"}, {"c2", "c3"}, {""}}
+// collection is an ownership conflict the registry has to arbitrate. "" is a config with no scopes at
+// all (the implicit default collection); "_default._default" names the default collection explicitly;
+// the model treats both as the one collection _default._default.
+var vfC15MenuQuick = [][]string{{"c1"}, {"c2"}, {"c1", "c2"}, {""}}
+var vfC15MenuFull = [][]string{{"c1"}, {"c2"}, {"c1", "c2"}, {"c3"}, {"c2", "c3"}, {""}, {"_default._default"}}
 
-func vfC15SetName(set []string) string {
-	if len(set) == 1 && set[0] == "" {
-		return "_default"
+func vfC15Implicit(set []string) bool { return len(set) == 1 && set[0] == "" }
+
+// vfC15Split returns scope and collection of a menu entry.
+func vfC15Split(c string) (string, string) {
+	if i := strings.Index(c, "."); i >= 0 {
+		return c[:i], c[i+1:]
 	}
-	return strings.Join(set, "+")
+	return vfC15Scope, c
 }
 
 func vfC15SetColls(set []string) []string {
-	if len(set) == 1 && set[0] == "" {
+	if vfC15Implicit(set) {
 		return []string{"_default._default"}
 	}
 	out := make([]string, len(set))
 	for i, c := range set {
-		out[i] = vfC15Scope + "." + c
+		sc, cn := vfC15Split(c)
+		out[i] = sc + "." + cn
 	}
 	sort.Strings(out)
 	return out
@@ -448,15 +454,19 @@ func (w *vfC15World) NewNode() *vfC15Node {
 }
 
 func (w *vfC15World) scopesFor(set []string, payload int) ScopesConfig {
-	if len(set) == 1 && set[0] == "" {
+	if vfC15Implicit(set) {
 		return nil
 	}
-	cc := CollectionsConfig{}
+	out := ScopesConfig{}
 	for _, c := range set {
-		fn := fmt.Sprintf(`function(doc){channel("p%d_%s")}`, payload, c)
-		cc[c] = &CollectionConfig{SyncFn: &fn}
+		sc, cn := vfC15Split(c)
+		if _, ok := out[sc]; !ok {
+			out[sc] = ScopeConfig{Collections: CollectionsConfig{}}
+		}
+		fn := fmt.Sprintf(`function(doc){channel("p%d_%s")}`, payload, cn)
+		out[sc].Collections[cn] = &CollectionConfig{SyncFn: &fn}
 	}
-	return ScopesConfig{vfC15Scope: ScopeConfig{Collections: cc}}
+	return out
 }
 
 // applyPayload writes the generated content of op into a DbConfig the way the admin API replaces the
